@@ -104,6 +104,10 @@ pub struct Registry {
 	handlers: Arc<Mutex<Vec<HandlerHandle>>>,
 	/// (tag, ticket) of handlers whose future ended or was dropped
 	pub finished: Arc<Mutex<Vec<(String, u64)>>>,
+	/// gates of the plain `hold` method: a call `hold [tag]` is answered when `release(tag)` is called
+	pub gates: Arc<Mutex<std::collections::HashMap<String, Arc<tokio::sync::Notify>>>>,
+	/// tags of `hold` calls whose handler has started
+	pub holding: Arc<Mutex<Vec<String>>>,
 }
 
 impl Registry {
@@ -115,6 +119,13 @@ impl Registry {
 	}
 	pub fn is_finished(&self, tag: &str) -> bool {
 		self.finished.lock().unwrap().iter().any(|(t, _)| t == tag)
+	}
+	fn gate(&self, tag: &str) -> Arc<tokio::sync::Notify> {
+		self.gates.lock().unwrap().entry(tag.to_string()).or_default().clone()
+	}
+	/// Let the `hold [tag]` call return (before or after it has started).
+	pub fn release(&self, tag: &str) {
+		self.gate(tag).notify_one();
 	}
 }
 
@@ -277,5 +288,13 @@ pub fn module(reg: Registry) -> RpcModule<Registry> {
 	})
 	.unwrap();
 	m.register_method("ping", |p, _, _| p.as_str().map(|s| s.to_string()).unwrap_or_default()).unwrap();
+	// an ordinary (non-subscription) call that stays in its handler until the harness releases it
+	m.register_async_method("hold", |p, reg, _| async move {
+		let tag: String = p.one().unwrap_or_else(|_| "untagged".to_string());
+		reg.holding.lock().unwrap().push(tag.clone());
+		reg.gate(&tag).notified().await;
+		tag
+	})
+	.unwrap();
 	m
 }
